@@ -131,6 +131,12 @@ theorem svlv_injective (v v' : Val) (hc : Canon v) (hc' : Canon v') (hw : v.widt
   unfold mkVal at e
   split at e <;> simp only [Val.mk.injEq] at e <;> exact ⟨e.2.1.symm, e.2.2.1.symm⟩
 
+/-- … and in the other direction: two `u32`-pair vectors that decode to the same value are the same
+vector (no `(aval, bval)` information is dropped on the way in). -/
+theorem svlv_fromWords_injective (ws ws' : List Word) (hok : WordsOk ws) (hok' : WordsOk ws')
+    (h : fromWords ws = fromWords ws') : ws = ws' := by
+  rw [← svlv_roundtrip_words ws hok, ← svlv_roundtrip_words ws' hok', h]
+
 /-- The two arms agree: the words do not depend on which representation holds the value. -/
 theorem svlv_arm_independent (p m w : Nat) :
     toWords ⟨.u64, p, m, w⟩ = toWords ⟨.big, p, m, w⟩ := by
